@@ -124,6 +124,36 @@ func VP_C03_policy_concurrent() {
 	}
 }
 
+//vp:property C04 C07
+//vp:bounds the same binding (user "u", token host "h", token address "a1") presented twice on tunnels of their own: first from the address it was issued to, then from another address ("a2") — or the other way round; the inner policy allows; VerifyClientIP on
+//vp:assume go-cache contract for code that starts to remember things (the unchanged package has no cache)
+//vp:reach both-judged
+func VP_C04_session_history() {
+	VerifyClientIP = true
+	HostSelection = "roundrobin"
+	chk := CheckSession(func(ctx context.Context, h string) (bool, error) { return true, nil })
+	present := func(from string) bool {
+		id := identity.NewUser()
+		id.SetUserName("u")
+		id.SetAttribute(identity.AttrClientIp, from)
+		tun := &protocol.Tunnel{User: id, TargetServer: "h", RemoteAddr: "a1"}
+		ok, _ := chk(vpCtxWith(tun, id), "h")
+		return ok
+	}
+	order := vpIntRange("owner-first", 0, 1)
+	var owner, other bool
+	if order == 1 {
+		owner = present("a1")
+		other = present("a2")
+	} else {
+		other = present("a2")
+		owner = present("a1")
+	}
+	vpReach("both-judged")
+	vpAssert(owner, "the-address-the-token-was-issued-to-is-accepted")
+	vpAssert(!other, "another-address-is-refused-whatever-was-accepted-before")
+}
+
 //vp:property C03 C04
 //vp:set s 3 5
 //vp:bounds requested host, token host, token address, presenting address: strings of <= s bytes; client-address attribute present-as-string / absent / non-string; both settings of VerifyClientIP; every host selection mode (any, signed, roundrobin, unsigned, unset); the inner policy is an arbitrary accept/refuse
